@@ -2,6 +2,7 @@ package checks
 
 import (
 	"bytes"
+	"crypto/sha256"
 	"fmt"
 	"math/big"
 	"os"
@@ -118,6 +119,24 @@ func c12Ops() []c12op {
 			ok, verr := multiproof.CheckMultiProof(common.NewTranscript("vt"), c, p, is.Cs, is.ys, is.zs)
 			return fmt.Sprintf("%x %v %v", proofBytes(p), ok, verr)
 		}},
+		{"CreateMultiProof(n=5 and n=17: more openings than workers)", true, func(c *ipa.IPAConfig, seed int64, slot int) string {
+			polys := polyAlphabet(seed)
+			out := ""
+			for _, n := range []int{5, 17} {
+				s := stmt{label: "vt"}
+				for i := 0; i < n; i++ {
+					s.zs = append(s.zs, (i*37+slot)%256)
+					s.polys = append(s.polys, pick(polys, 8+i%6))
+				}
+				is := s.build(c)
+				p, err := multiproof.CreateMultiProof(common.NewTranscript("vt"), c, is.Cs, is.fs, is.zs)
+				if err != nil {
+					return "error " + err.Error()
+				}
+				out += fmt.Sprintf("%x ", sha256.Sum256(proofBytes(p)))
+			}
+			return out
+		}},
 	}
 }
 
@@ -163,7 +182,7 @@ func c12Free(r *core.Result, seed int64, reps int) {
 	// every operation in both argument slots, all at once; lazily built or memoised shared state is
 	// initialised under contention here, not by a sequential warm-up.
 	first := make([][2]string, len(ops))
-	{
+	if !timed(r, "c12.panic", "concurrent API calls", "first use of a fresh configuration: all operations x 2 argument slots concurrently (free-running)", func() {
 		var wg sync.WaitGroup
 		for i := range ops {
 			for slot := 0; slot < 2; slot++ {
@@ -175,6 +194,8 @@ func c12Free(r *core.Result, seed int64, reps int) {
 			}
 		}
 		wg.Wait()
+	}) {
+		return
 	}
 	alone := make([][2]string, len(ops))
 	for i, op := range ops {
@@ -197,12 +218,16 @@ func c12Free(r *core.Result, seed int64, reps int) {
 					defer wg.Done()
 					out[k] = ops[oi].f(c, seed, slot)
 				}
-				wg.Add(4)
-				go run(0, i, 0)
-				go run(1, j, 1)
-				go run(2, j, 0)
-				go run(3, i, 1)
-				wg.Wait()
+				if !timed(r, "c12.panic", "concurrent API calls", fmt.Sprintf("%s || %s (free-running)", ops[i].name, ops[j].name), func() {
+					wg.Add(4)
+					go run(0, i, 0)
+					go run(1, j, 1)
+					go run(2, j, 0)
+					go run(3, i, 1)
+					wg.Wait()
+				}) {
+					continue
+				}
 				r.Evals++
 				r.Nontrivial++
 				for k, exp := range []string{alone[i][0], alone[j][1], alone[j][0], alone[i][1]} {
@@ -228,7 +253,7 @@ func clipS(s string) string {
 func init() {
 	core.Register(&core.Check{
 		ID: "C12", Level: "model_checking",
-		Rule:        "harnesses of 2-3 goroutines sharing one IPAConfig, the package tables and the big.Int pool, operations chosen to collide on the shared objects: (1) ALL 2-subsets (with repetition) and a family of 3-subsets of 7 short operations (fr decoders/printers through the pool, transcripts, element codec): unbounded DPOR over every interleaving and every sync.Pool answer, pooled objects poisoned on Put; (2) pairs of a heavy call (Commit, MultiScalar, BatchNormalize, CheckIPAProof, CreateIPAProof, CreateMultiProof+Check) with a short one and heavy-heavy pairs: DPOR under a time cap (cap reported); oracle: every call's output equals its output when executed alone, no deadlock state, shared fingerprint unchanged; (3) race pass: all pairs of the same bodies free-running in the -race build under GOMAXPROCS 1,2,4,16 (3 repetitions) — any report is a violation; a state is a decision point of the explored schedule tree; non-trivial = executions with at least one scheduling point where two goroutines address the same shim object",
+		Rule:        "harnesses of 2-3 goroutines sharing one IPAConfig, the package tables and the big.Int pool, operations chosen to collide on the shared objects: (1) ALL 2-subsets (with repetition) and a family of 3-subsets of 7 short operations (fr decoders/printers through the pool, transcripts, element codec): unbounded DPOR over every interleaving and every sync.Pool answer, pooled objects poisoned on Put; (2) pairs of a heavy call (Commit, MultiScalar, BatchNormalize, CheckIPAProof, CreateIPAProof, CreateMultiProof+Check) with a short one and heavy-heavy pairs: DPOR under a time cap (cap reported); oracle: every call's output equals its output when executed alone, no deadlock state, shared fingerprint unchanged; (3) race pass: all pairs of the same bodies free-running in the -race build under GOMAXPROCS 1,2,4,16 (first-use phase on a fresh configuration, then every pair; 3 repetitions in thorough) — any report is a violation; a state is a decision point of the explored schedule tree; non-trivial = executions with at least one scheduling point where two goroutines address the same shim object",
 		Assume:      []string{"scheduling points = visible synchronisation operations; sequential consistency; data-race freedom is discharged by the separate free-running -race pass (a cooperative scheduler would blind the detector)", "heavy pairs are explored under a wall-clock cap, reported in caps_hit"},
 		UnitTimeout: 20 * time.Minute,
 		Units:       c12Units,
@@ -246,7 +271,9 @@ func c12Units(ctx *core.Ctx) []core.Unit {
 			short = append(short, i)
 		}
 	}
+	schedCPU := 2
 	sched := func(name string, idx []int, opt explore.Options, mode string) core.Unit {
+		cpu := schedCPU
 		return core.Unit{Name: name, Run: func(ctx *core.Ctx, r *core.Result) {
 			if !vsched.Instrumented {
 				r.Note("seam", "unavailable (fallback flavour)")
@@ -256,7 +283,7 @@ func c12Units(ctx *core.Ctx) []core.Unit {
 			old := vsched.PoolPoison
 			vsched.PoolPoison = poisonBig
 			defer func() { vsched.PoolPoison = old }()
-			vsched.SetNumCPU(2)
+			vsched.SetNumCPU(cpu)
 			defer vsched.SetNumCPU(0)
 			want := ""
 			for k, oi := range idx {
@@ -303,8 +330,20 @@ func c12Units(ctx *core.Ctx) []core.Unit {
 	for _, hp := range [][2]int{{0, 1}, {1, 1}, {2, 2}, {3, 4}, {4, 4}, {0, 5}} {
 		us = append(us, sched(fmt.Sprintf("heavy pair: %s || %s", ops[heavy[hp[0]]].name, ops[heavy[hp[1]]].name), []int{heavy[hp[0]], heavy[hp[1]]}, explore.Options{DataBudget: 0, MaxExecs: 100000, Deadline: schedDeadline(ctx)}, "dpor"))
 	}
+	// the many-openings prover under other worker counts (alone and next to a short call): no deadlock state
+	last := heavy[len(heavy)-1]
+	for _, cpu := range []int{3, 4, 16} {
+		schedCPU = cpu
+		us = append(us, sched(fmt.Sprintf("NumCPU=%d: %s", cpu, ops[last].name), []int{last}, explore.Options{DataBudget: 0, MaxExecs: 100000, Deadline: schedDeadline(ctx)}, "dpor"))
+		us = append(us, sched(fmt.Sprintf("NumCPU=%d: %s || %s", cpu, ops[last].name, ops[short[5]].name), []int{last, short[5]}, explore.Options{DataBudget: 0, MaxExecs: 100000, Deadline: schedDeadline(ctx)}, "dpor"))
+	}
+	schedCPU = 2
 	us = append(us, core.Unit{Name: "free-running pairs (default build)", Run: func(ctx *core.Ctx, r *core.Result) {
-		c12Free(r, ctx.Seed, 2)
+		reps := 1
+		if ctx.Thorough() {
+			reps = 3
+		}
+		c12Free(r, ctx.Seed, reps)
 		r.Sample(map[string]interface{}{"pairs": "all 2-subsets with repetition of 13 operations, 4 goroutines each", "mode": "free-running, native goroutines"})
 	}})
 	for _, gmp := range []string{"1", "2", "4", "16"} {
@@ -376,7 +415,11 @@ func c12Units(ctx *core.Ctx) []core.Unit {
 		if os.Getenv("VERIF_FLAVOUR_CHILD") == "" {
 			return // only meaningful inside the -race flavour
 		}
-		c12Free(r, ctx.Seed, 3)
+		reps := 1
+		if ctx.Thorough() {
+			reps = 3
+		}
+		c12Free(r, ctx.Seed, reps)
 	}})
 	return us
 }
